@@ -1213,6 +1213,15 @@ impl<'a, 'ast> Visit<'ast> for Ed<'a> {
                 // `$fmtarg` = the first value the format string of the macro displays: an inline
                 // capture `{name}`, else the first argument after the format string
                 let mut repl = repl.clone();
+                // `$macroargs` = the argument tokens of the macro invocation, as written
+                if repl.contains("$macroargs") {
+                    let t = m.tokens.to_string();
+                    let args = match (m.tokens.clone().into_iter().next(), m.tokens.clone().into_iter().last()) {
+                        (Some(a), Some(b)) => self.src[a.span().byte_range().start..b.span().byte_range().end].to_string(),
+                        _ => t,
+                    };
+                    repl = repl.replace("$macroargs", &args);
+                }
                 if repl.contains("$fmtarg") {
                     let text = &self.src[r.clone()];
                     let mut arg: Option<String> = None;
